@@ -43,7 +43,7 @@ var skipGroups = []struct {
 	files func(base string) bool
 }{
 	{"R01.11", []string{"C01", "C02", "C03", "C04", "C05", "C06", "C07", "C08", "C10"}, []string{"pkg/blobstore/local"}, nil},
-	{"R09.7", []string{"C09", "C15", "C16"}, []string{"pkg/blobstore/buffer"}, nil},
+	{"R09.7", []string{"C09", "C15", "C16", "C10", "C01", "C08", "C04"}, []string{"pkg/blobstore/buffer"}, nil},
 	{"R11.7", []string{"C11"}, []string{"pkg/blobstore/mirrored"}, nil},
 	{"R12.9", []string{"C12"}, []string{"pkg/blobstore/sharding"}, nil},
 	{"R13.7", []string{"C13"}, []string{"pkg/blobstore/completenesschecking"}, nil},
@@ -67,7 +67,12 @@ var refDir = "/verif/reference"
 
 func moduleIface(t types.Type) *types.Named {
 	n, ok := t.(*types.Named)
-	if !ok || n.Obj().Pkg() == nil || !strings.HasPrefix(n.Obj().Pkg().Path(), modPath) {
+	if !ok || n.Obj().Pkg() == nil {
+		return nil
+	}
+	// the module's own interfaces, and those of its dependencies (gRPC streams
+	// and clients, …) – not the standard library's (io.Writer, context.Context, …)
+	if path := n.Obj().Pkg().Path(); !strings.HasPrefix(path, modPath) && !strings.Contains(strings.SplitN(path, "/", 2)[0], ".") {
 		return nil
 	}
 	if _, ok := n.Underlying().(*types.Interface); !ok {
